@@ -188,6 +188,7 @@ var props = map[string]Prop{
 	},
 	"C06": {
 		Stages: []Stage{
+			{Name: "signedparams", Test: "TestC06SignedParams", Shards: [2]int{2, 2}, SeedOffset: 2, Timeout: [2]time.Duration{5 * min, 10 * min}},
 			{Name: "manyuses", Test: "TestC06ManyUses", Shards: [2]int{4, 8}, SeedOffset: 1, Timeout: [2]time.Duration{10 * min, 30 * min}},
 			{Name: "bindings", Test: "TestC06Bindings", Shards: [2]int{6, 16}, Checks: [2]int{2500, 150000}, Timeout: [2]time.Duration{10 * min, 90 * min}},
 		},
